@@ -102,9 +102,15 @@ def _collapse_snapshots(
     :return: collapsed sequence of snapshots
     """
     seen_names = set()  # type: Set[str]
-    collapsed = base_snapshots + snapshots
+    collapsed = []  # type: List[Snapshot]
 
-    for snap in collapsed:
+    for snap in base_snapshots + snapshots:
+        # The very same snapshot can be inherited along several paths of the class hierarchy (*e.g.*, in a diamond).
+        if any(snap is a_collapsed_snap for a_collapsed_snap in collapsed):
+            continue
+
+        collapsed.append(snap)
+
         if snap.name in seen_names:
             raise ValueError(
                 "There are conflicting snapshots with the name: {!r}.\n\n"
